@@ -40,7 +40,7 @@ _ORIG_SCHED = _loop.Loop.schedule
 class Probe:
     __slots__ = ('k', 'b_step', 'b_total', 'before', 'acts', 'scheds', 'record',
                  'step_time', 'step_count', 'max_step', 'record_sched',
-                 'monotone_ok', 'last_time', 'loop', 'total', 'on_end')
+                 'monotone_ok', 'last_time', 'loop', 'total', 'on_end', 'absorbed')
 
     def __init__(self, b_step=20000, b_total=200000, before=None, record=False,
                  record_sched=False):
@@ -59,6 +59,7 @@ class Probe:
         self.last_time = None
         self.loop = None
         self.total = 0
+        self.absorbed = False   # a positive delay vanished in the float resolution of the clock (now + delay == now)
         self.on_end = None      # called when the observed event loop stops (before usim unwinds what is left)
 
 
@@ -113,6 +114,8 @@ def _schedule(self, target, signal=None, *, delay=None, at=None):
     _STACK = _TLS.stack
     if _STACK:
         p = _STACK[-1]
+        if delay is not None and delay > 0 and self.time + delay == self.time:
+            p.absorbed = True
         if p.record_sched and (p.loop is None or self is p.loop):
             due = self.time if (delay is None and at is None) else (
                 self.time + delay if delay is not None else at)
